@@ -99,5 +99,9 @@ CHECKS["C08"] = {
         {"pkg": "root", "run": "TestVF_C08_Mutator", "rapid": {"quick": 250, "thorough": 2500},
          "shards": {"quick": 8, "thorough": 16}, "timeout": {"quick": 500, "thorough": 3400}},
         {"pkg": "root", "run": "TestVF_C08_Hostile"},
+        {"pkg": "root", "fuzz": "FuzzVF_C08_Raw", "run": "FuzzVF_C08_Raw", "prepare": "TestVF_C08_WriteFuzzSeeds", "tiers": ["thorough"],
+         "seconds": {"thorough": 240}, "workers": 8},
+        {"pkg": "root", "fuzz": "FuzzVF_C08_Mut", "run": "FuzzVF_C08_Mut", "prepare": "TestVF_C08_WriteFuzzSeeds", "tiers": ["thorough"],
+         "seconds": {"thorough": 240}, "workers": 8},
     ],
 }
